@@ -9,5 +9,5 @@ Extraction "dns_model.ml"
   wdns_check_len wdns_transaction_id wdns_flags wdns_opcode wdns_rcode
   wdns_question_count wdns_answer_record_count wdns_authority_record_count
   wdns_additional_record_count wdns_repr_buffer_len wdns_repr_emit wdns_FLAGS_ALL
-  dns_new dns_update_servers dns_step dns_poll_at dns_cfg_default dns_tx_hop dns_hop_limit.
+  dns_new dns_update_servers dns_step dns_dispatch dns_poll_at dns_cfg_default dns_tx_hop dns_hop_limit.
 Cd "../../coq".
